@@ -26,9 +26,7 @@ def jx():
         try:
             # persistent compilation cache: the check is deterministic given VERIF_SEED, a repeated run of the same seed
             # against the same library source finds every program compiled (keys = HLO text + jax/XLA version + flags)
-            import tempfile
-            d = os.environ.get("C12_JAX_CACHE") or os.path.join(os.environ.get("TMPDIR") or tempfile.gettempdir(),
-                                                                 "c12_jax_cache")
+            d = cache_dir()
             if d != "off":
                 os.makedirs(d, exist_ok=True)
                 jax.config.update("jax_compilation_cache_dir", d)
@@ -38,6 +36,24 @@ def jx():
             pass
         _JAX = jax
     return _JAX
+
+
+def cache_dir():
+    import os
+    import tempfile
+    return os.environ.get("C12_JAX_CACHE") or os.path.join(os.environ.get("TMPDIR") or tempfile.gettempdir(), "c12_jax_cache")
+
+
+def prune_cache(max_entries=40000):
+    """called by the parent before the workers start: the cache is an accelerator only, bound its size"""
+    import os
+    import shutil
+    d = cache_dir()
+    try:
+        if d != "off" and os.path.isdir(d) and len(os.listdir(d)) > max_entries:
+            shutil.rmtree(d, ignore_errors=True)
+    except OSError:
+        pass
 
 
 def rdt():
